@@ -52,6 +52,8 @@ type Engine struct {
 	shard, shardN, shardDepth int
 	asn1Havoc  bool
 	debugDeadlock bool
+	concreteClock bool
+	acqOnly       bool
 	lenient    bool
 	lazyGlobals []int
 	deadlocks  int
@@ -602,8 +604,10 @@ func (e *Engine) step(st *State) {
 		f.env[x] = Ptr{obj: st.alloc(&ChanObj{cap: e.concrete(st, e.get(st, x.Size).(*Term))})}
 	case *ssa.Send:
 		p := e.get(st, x.Chan).(Ptr)
-		e.schedPoint(st)
 		c := st.heap[p.obj].(*ChanObj)
+		if c.closed || len(c.buf) < c.cap { // about to block anyway: the choice of who runs next is made by block()
+			e.schedPoint(st)
+		}
 		if c.closed {
 			e.goPanic(st, "send on closed channel")
 		}
@@ -617,7 +621,6 @@ func (e *Engine) step(st *State) {
 			st.race.release(st.cur, "chan:"+ptrKey(p))
 		}
 	case *ssa.Select:
-		e.schedPoint(st)
 		ready := -1
 		for i, s := range x.States {
 			p := e.get(st, s.Chan).(Ptr)
@@ -633,6 +636,9 @@ func (e *Engine) step(st *State) {
 				ready = i
 				break
 			}
+		}
+		if ready >= 0 || !x.Blocking {
+			e.schedPoint(st)
 		}
 		if ready < 0 {
 			if x.Blocking {
@@ -880,11 +886,13 @@ func (e *Engine) unop(st *State, x *ssa.UnOp) Value {
 		return st.load(p)
 	case token.ARROW:
 		p := v.(Ptr)
-		e.schedPoint(st)
 		if p.obj == 0 {
 			e.block(st, "nilchan")
 		}
 		c := st.heap[p.obj].(*ChanObj)
+		if len(c.buf) > 0 || c.closed {
+			e.schedPoint(st)
+		}
 		et := x.X.Type().Underlying().(*types.Chan).Elem()
 		var r Value
 		ok := true
@@ -1815,7 +1823,9 @@ func (e *Engine) intrinsic(st *State, fv Func, args []Value, x *ssa.Call) bool {
 		}()
 		switch short {
 		case "Lock":
-			e.schedPoint(st)
+			if !(l.writer || l.readers > 0) {
+				e.schedPoint(st)
+			}
 			if l.writer || l.readers > 0 {
 				e.block(st, key)
 			}
@@ -1824,7 +1834,9 @@ func (e *Engine) intrinsic(st *State, fv Func, args []Value, x *ssa.Call) bool {
 				st.race.acquire(st.cur, key)
 			}
 		case "RLock":
-			e.schedPoint(st)
+			if !l.writer {
+				e.schedPoint(st)
+			}
 			if l.writer {
 				e.block(st, key)
 			}
@@ -1833,7 +1845,9 @@ func (e *Engine) intrinsic(st *State, fv Func, args []Value, x *ssa.Call) bool {
 				st.race.acquire(st.cur, key)
 			}
 		case "Unlock":
-			e.schedPoint(st)
+			if !e.acqOnly {
+				e.schedPoint(st)
+			}
 			if !l.writer {
 				e.goPanic(st, "unlock of unlocked mutex")
 			}
@@ -1843,7 +1857,9 @@ func (e *Engine) intrinsic(st *State, fv Func, args []Value, x *ssa.Call) bool {
 				st.race.release(st.cur, key)
 			}
 		case "RUnlock":
-			e.schedPoint(st)
+			if !e.acqOnly {
+				e.schedPoint(st)
+			}
 			if l.readers <= 0 {
 				e.goPanic(st, "runlock of unlocked mutex")
 			}
@@ -1883,6 +1899,15 @@ func (e *Engine) intrinsic(st *State, fv Func, args []Value, x *ssa.Call) bool {
 		// arbitrary wall clock without monotonic reading: Time{wall: 0, ext: seconds since year 1, loc: nil}.
 		// The instant changes only when the harness calls vndAdvanceClock() (then: any later-or-equal instant).
 		tv := zero(fv.fn.Signature.Results().At(0).Type()).(Struct)
+		if e.concreteClock && (st.lastNow == nil || st.clockMayAdvance) {
+			// concrete realistic instants: 2023-11-14 plus 1000 s per declared advance
+			nv := BV(64, 1700000000)
+			if st.lastNow != nil {
+				nv = Bin("bvadd", st.lastNow, BV(64, 1000))
+			}
+			st.lastNow = nv
+			st.clockMayAdvance = false
+		}
 		if st.lastNow == nil || st.clockMayAdvance {
 			sec := st.fresh("unixNow", 64)
 			st.pc = append(st.pc, Cmp("bvsle", BV(64, 1600000000), sec), Cmp("bvsle", sec, BV(64, 4000000000)))
